@@ -511,7 +511,7 @@ pub fn utf8_stream(rng: &mut Rng) -> (String, Vec<u8>) {
 
 /// partitions of a stream: whole, byte-wise, and `extra` random ones with empty reads
 pub fn partitions(rng: &mut Rng, len: usize, extra: usize) -> Vec<Vec<usize>> {
-    let mut out = vec![vec![len], vec![1; len]];
+    let mut out = vec![vec![len], if len == 0 { vec![0, 0] } else { vec![1; len] }];
     for _ in 0..extra {
         let mut p = Vec::new();
         let mut left = len;
@@ -529,7 +529,7 @@ pub fn partitions(rng: &mut Rng, len: usize, extra: usize) -> Vec<Vec<usize>> {
             p.push(step);
             left -= step;
         }
-        if rng.chance(1, 3) {
+        if rng.chance(1, 3) || p.is_empty() {
             p.push(0);
         }
         out.push(p);
